@@ -72,7 +72,8 @@ CLAIMS = {
             EXE + " (InvC12s, InvC12)", "DESIGN.md §5 C12"),
     "C13": ("Setup/dispose fan-out: Lifecycle.tla (the code's visiting order incl. batches and thread-local systems, every presence subset, repeated "
             "setup, removes in between); real dispatchers with batches nested up to 3 and thread-local systems: every system's setup and dispose hook "
-            "exactly once, nothing pre-existing modified, exactly the accessed resources created (TLC on recorded setup/dispose traces).",
+            "exactly once (dispose also for dispatchers that were never set up), nothing pre-existing modified, exactly the accessed resources created "
+            "(TLC on recorded setup/dispose traces).",
             "TLC model checking of Lifecycle.tla + real setup/dispose traces validated by ShredTrace (InvC13)", "DESIGN.md §5 C13"),
     "C14": ("Panic containment: Exec.tla with the fault action PanicIn at every position; real dispatches with harness-injected panics (one or two systems, "
             "any position incl. thread-local and batch members, siblings held inside run) — payload, no rerun, no dependent ran, all cells free (quiescent probe), "
